@@ -25,6 +25,8 @@ ASSUMPTIONS = ["main() is driven in-process with scripted sys.argv/stdin/stdout 
                "the after-subcommand position is required to win", "None and '' are identified for rpc_* values",
                "reference: cli ?? file.get(key) ?? default, with TOML preferred whenever config.toml exists"]
 OBLIGATIONS = {
+    "three_options_in_different_layers": "three or more options given at once, in different layers (command line / file)",
+    "toml_unsupported": "both files present on an interpreter without tomllib (JSON must be used)",
     "history_sequences": "operation sequences (non-initial process states) explored",
     "cli_over_file": "an explicit option competed with a different config-file value", "toml_over_json": "both files present with different values",
     "file_over_default": "a config-file value different from the default with no explicit option", "junk_key": "a config file with an undefined key",
@@ -107,7 +109,7 @@ def option_table():
     return out
 
 
-def run_main(argv, stdin=b"", files=None, mode="config"):
+def run_main(argv, stdin=b"", files=None, mode="config", toml_support=True):
     """one in-process main() run. files: {"toml": dict|None, "json": dict|None}. Returns observation dict."""
     import bits
     import bits.__main__ as bm
@@ -155,12 +157,17 @@ def run_main(argv, stdin=b"", files=None, mode="config"):
     bm.Config = RecConfig
     bits.set_log_level = sll
     bits.rpc.rpc_method = rpc
+    import bits.config as bconf
+    saved_toml = bconf.HAS_TOMLLIB
+    if not toml_support:
+        bconf.HAS_TOMLLIB = False        # the interpreter has no tomllib (Python < 3.11): the flag the library itself derives at import
     try:
         obs["ret"] = bm.main()
     except SystemExit as e:
         obs["exit"] = e.code
     finally:
         sys.argv, sys.stdin, sys.stdout, sys.stderr = saved
+        bconf.HAS_TOMLLIB = saved_toml
         bm.Config = RealConfig
         bits.set_log_level = real_sll
         bits.rpc.rpc_method = real_rpc
@@ -227,6 +234,35 @@ def chk_prec(case):
         if obs["level"] != [getattr(logging, exp.upper())]:
             return [(f"C20/behaviour/log_level", f"handler levels {obs['level']} for effective {exp} ({tag})")]
     return []
+
+
+def chk_cross(case):
+    """ALL options at once: every option is independently absent / on the command line / in the configuration file(s);
+    the effective value of EVERY option must follow the precedence rule on its own (no option may depend on how another
+    one was given).  filekind: which files exist; toml_support False = interpreter without tomllib."""
+    sub, layers, opts = case["sub"], case["layers"], case["opts"]
+    cli = {d: ALPHA[d][0] for d, l in layers.items() if l == "cli"}
+    in_file = [d for d, l in layers.items() if l == "file"]
+    toml = {d: ALPHA[d][1] for d in in_file} if case["filekind"] in ("toml", "both") else None
+    js = {d: (ALPHA[d][2] if case["filekind"] == "both" else ALPHA[d][1]) for d in in_file} if case["filekind"] in ("json", "both") else None
+    argv = ([sub] if sub else []) + [f"{opts[d]}={v}" for d, v in cli.items()] + list(case["pos"])
+    obs = run_main(argv, files={"toml": toml, "json": js}, mode="config", toml_support=case["toml_support"])
+    tag = f"bits {' '.join(argv)} | toml={toml} json={js} tomllib={'yes' if case['toml_support'] else 'no'}"
+    if obs["config"] is None and obs["exit"] == 2:
+        raise RuntimeError(f"harness: argparse rejected the scripted command line: {obs['stderr'][-200:]!r} ({tag})")
+    if obs["config"] is None:
+        return [(f"C20/precedence/{sub or 'base'}/cross/no-config", f"main() did not reach the point where options take effect ({tag})")]
+    eff_toml = toml if case["toml_support"] else None
+    out = []
+    for d in CONFIG_KEYS:
+        exp = expected_value(d, cli.get(d), eff_toml, js)
+        got = norm(d, obs["config"][d])
+        if got != norm(d, exp):
+            nlay = sum(1 for l in layers.values() if l != "absent")
+            why = "toml-unsupported" if (not case["toml_support"] and toml is not None) else f"{min(nlay, 4)}-options-given"
+            out.append((f"C20/precedence/{sub or 'base'}/{d}/cross/{why}", f"effective {d} = {got!r}, expected {exp!r} ({tag})"))
+            break
+    return out
 
 
 def ref_convert_in(fmt, data: bytes):
@@ -363,7 +399,12 @@ def chk_conv(case):
 CASES = {"prec": chk_prec, "behaviour": chk_behaviour, "conv": chk_conv}
 
 
+CASES_EXTRA = {"cross": chk_cross}
+
+
 def run_case(kind, case):
+    if kind in CASES_EXTRA:
+        return CASES_EXTRA[kind](case)
     if kind == "seq":
         from vf import seqexplore
         return seqexplore.replay(run_case, case)
@@ -419,6 +460,7 @@ def lattice(dest, tier):
 def jobs(tier, seed):
     js = [{"name": f"prec/{sh}", "part": "prec", "shard": [sh, 24], "weight": 10} for sh in range(24)]
     js += [{"name": f"behaviour/{sh}", "part": "behaviour", "shard": [sh, 8], "weight": 6} for sh in range(8)]
+    js += [{"name": f"cross/{sh}", "part": "cross", "shard": [sh, 16], "weight": 8} for sh in range(16)]
     js += [{"name": f"conv/{sh}", "part": "conv", "shard": [sh, 8], "weight": 6} for sh in range(8)]
     from vf.runner import seq_jobs
     js += seq_jobs(4, weight=4)
@@ -511,6 +553,37 @@ def run_job(job):
                     acc.transitions += 1
                     acc.nontrivial += 1
                     acc.check("prec", {"sub": sub, "dest": dest, "opt": None, "pos": pos[sub], **node}, chk_prec)
+    elif part == "cross":
+        table = option_table()
+        by_sub = {}
+        for r in table:
+            by_sub.setdefault(r["sub"], {"pos": r["pos"], "opts": {}})["opts"][r["dest"]] = r["opt"]
+        i = 0
+        for sub_, info in sorted(by_sub.items(), key=lambda kv: kv[0] or ""):
+            cli_d = sorted(info["opts"])
+            other = [d for d in CONFIG_KEYS if d not in info["opts"]]
+            for lay_cli in itertools.product(("absent", "cli", "file"), repeat=len(cli_d)):
+                for lay_o in itertools.product(("absent", "file"), repeat=len(other)):
+                    layers = dict(zip(cli_d, lay_cli))
+                    layers.update(zip(other, lay_o))
+                    has_file = any(l == "file" for l in layers.values())
+                    for filekind, ts in ((("toml", True), ("json", True), ("both", True), ("both", False)) if has_file else (("none", True),)):
+                        i += 1
+                        if i % nsh != sh:
+                            continue
+                        acc.evaluations += 1
+                        acc.executions += 1
+                        acc.states += 1
+                        acc.transitions += 1
+                        if sum(1 for l in layers.values() if l != "absent") >= 2:
+                            acc.nontrivial += 1
+                        if sum(1 for l in layers.values() if l != "absent") >= 3:
+                            acc.ob("three_options_in_different_layers")
+                        if not ts:
+                            acc.ob("toml_unsupported")
+                        acc.check("cross", {"sub": sub_, "pos": info["pos"], "opts": info["opts"], "layers": layers, "filekind": filekind,
+                                            "toml_support": ts}, chk_cross)
+        acc.sample({"cross_nodes_this_shard": acc.evaluations})
     elif part == "behaviour":
         data = filler(seed, "c20-data", 20)
         key32 = bytes([1]) + filler(seed, "c20-key", 31)
